@@ -278,6 +278,16 @@ type hystCase struct {
 	Hosts   int      `json:"hosts"`
 	Rounds  [][]bool `json:"rounds"` // rounds[r][h] = check succeeds
 	Removes []int    `json:"removes"` // removes[r] = host index removed and re-added (fresh object) before round r, -1 none
+	// Resets: before round At the health-check configuration is replaced at run time (ResetHealthCheck, what a service
+	// configuration update does): new thresholds, the same or another interval. Later flips follow the new thresholds.
+	Resets []hystReset `json:"resets,omitempty"`
+}
+
+type hystReset struct {
+	At          int    `json:"at"`
+	Rise        uint32 `json:"rise"`
+	Fall        uint32 `json:"fall"`
+	NewInterval bool   `json:"new_interval"`
 }
 
 func checkHyst(c hystCase) (interrupted bool, v *verdict) {
@@ -286,10 +296,25 @@ func checkHyst(c hystCase) (interrupted bool, v *verdict) {
 		hs[i] = host.NewWithType(addrOf(i), host.TypeMain)
 	}
 	set := host.NewSet(hs...)
-	mon, err := verifexport.NewMonitor(&hcpb.HealthCheck{Interval: time.Hour, Timeout: time.Second, FallThreshold: c.Fall, RiseThreshold: c.Rise}, set)
+	mkCfg := func(rise, fall uint32, interval time.Duration) *hcpb.HealthCheck {
+		cfg := &hcpb.HealthCheck{Interval: interval, Timeout: time.Second, FallThreshold: fall, RiseThreshold: rise}
+		if len(c.Resets) > 0 {
+			cfg.Checker = &hcpb.HealthCheck_TcpChecker{TcpChecker: &hcpb.TCPChecker{}} // the same kind before and after: the scripted checker stays
+		}
+		return cfg
+	}
+	interval := time.Hour
+	mon, err := verifexport.NewMonitor(mkCfg(c.Rise, c.Fall, interval), set)
 	if err != nil || mon == nil {
 		return false, &verdict{"monitor-construct", fmt.Sprintf("NewMonitor: %v", err)}
 	}
+	if len(c.Resets) > 0 {
+		// the monitor's own loop runs (its ticker never fires within a case): it takes the configuration updates; the
+		// rounds are still driven synchronously
+		mon.Start()
+		defer mon.Stop()
+	}
+	rise, fall := c.Rise, c.Fall
 	var round []bool
 	var mu sync.Mutex
 	mon.VerifSetChecker(func(addr string, _ time.Duration) error {
@@ -318,6 +343,27 @@ func checkHyst(c hystCase) (interrupted bool, v *verdict) {
 			set.Add(hs[i])
 			state[i], run[i] = true, 0
 		}
+		for _, rs := range c.Resets {
+			if rs.At != r {
+				continue
+			}
+			if rs.NewInterval {
+				interval += time.Hour
+			}
+			rerr := make(chan error, 1)
+			go func() { rerr <- mon.ResetHealthCheck(mkCfg(rs.Rise, rs.Fall, interval)) }()
+			select {
+			case err := <-rerr:
+				if err == nil {
+					rise, fall = rs.Rise, rs.Fall
+					if rs.NewInterval {
+						time.Sleep(2 * time.Millisecond) // the loop re-arms its ticker
+					}
+				}
+			case <-time.After(10 * time.Second):
+				return interrupted, &verdict{"reset-never-returns", fmt.Sprintf("round %d: ResetHealthCheck did not return within 10s", r)}
+			}
+		}
 		mu.Lock()
 		round = res
 		mu.Unlock()
@@ -333,9 +379,9 @@ func checkHyst(c hystCase) (interrupted bool, v *verdict) {
 				run[i] = 0
 			}
 			obs := hs[i].IsHealthy()
-			thr := c.Fall
+			thr := fall
 			if !state[i] {
-				thr = c.Rise
+				thr = rise
 			}
 			if obs != state[i] {
 				need := thr
@@ -396,6 +442,12 @@ func TestHysteresis(t *testing.T) {
 				rm = rapid.IntRange(0, c.Hosts-1).Draw(t, "rmh")
 			}
 			c.Removes = append(c.Removes, rm)
+		}
+		if rapid.IntRange(0, 2).Draw(t, "resets") == 0 {
+			for k, m := 0, rapid.IntRange(1, 3).Draw(t, "nresets"); k < m; k++ {
+				c.Resets = append(c.Resets, hystReset{At: rapid.IntRange(0, n-1).Draw(t, "rsat"), Rise: uint32(rapid.IntRange(0, 6).Draw(t, "rsrise")), Fall: uint32(rapid.IntRange(0, 6).Draw(t, "rsfall")),
+					NewInterval: rapid.IntRange(0, 2).Draw(t, "rsint") == 0})
+			}
 		}
 		interrupted, v := checkHyst(c)
 		if v != nil {
